@@ -23,6 +23,8 @@ def sh(cmd, **kw):
 
 
 PROPS = ['C02', 'C04', 'C05', 'C06', 'C07', 'C08', 'C09', 'C10', 'C12', 'C17', 'C18', 'C19']
+if os.environ.get('SENS_PROPS'):  # time-boxed rounds: only these checks are run (recorded in meta.json as checks_run)
+    PROPS = os.environ['SENS_PROPS'].split(',')
 
 
 def main():
@@ -93,6 +95,7 @@ def main():
                             faithful.append(c.returncode == 0)
                 meta['checks'][p]['witnesses_pass_on_unchanged_tree'] = faithful
             print('   %s exit=%d %s' % (p, r.returncode, (lines[0][:200] if lines else '')), flush=True)
+        meta['checks_run'] = list(PROPS)
         meta['caught_by'] = [p for p in PROPS if meta['checks'][p]['exit'] == 1]
         meta['caught_by_own_property_check'] = prop in meta['caught_by']
     out = '/verif/seeded/' + mid
